@@ -3220,6 +3220,8 @@ impl Zeroconf {
                 if qtype == RRType::ANY && msg.num_authorities() > 0 {
                     if let Some(probe) = dns_registry.probing.get_mut(q_name) {
                         probe.tiebreaking(&msg, q_name);
+                        // wake up for the next probe, which may have been postponed.
+                        self.timers.push(Reverse(probe.next_send));
                     }
                 }
 
